@@ -716,7 +716,7 @@ func init() {
 				}
 			}
 		}
-		us = append(us, coldUnit("uePolicyContainer", "uepolicy", "shared-parse"))
+		us = append(us, coldUnits(tier, "uePolicyContainer", "uepolicy", "shared-parse")...)
 		return us
 	}
 	core.Register(p)
